@@ -1,6 +1,7 @@
 package main
 
 import (
+	templruntime "github.com/a-h/templ/runtime"
 	"bytes"
 	"context"
 	"fmt"
@@ -56,6 +57,27 @@ func runDevRender(e *emitter, tier string, seed uint64) {
 		}
 		fmt.Fprintf(e.w, "%s\t%s\n", f.name, hx(out))
 	}
+	// devlit: literal lines handed over by the parent are installed as this process's own development text file and read
+	// back, one by one, through the real runtime.WriteString.
+	in, err := os.ReadFile(filepath.Join(os.Getenv("TEMPL_DEV_MODE_ROOT"), "devlit.input"))
+	if err != nil {
+		return
+	}
+	lines := strings.Split(string(in), "\n")
+	txt := templruntime.GetDevModeTextFileName(devLitSelfPath())
+	if err := os.WriteFile(txt, in, 0o644); err != nil {
+		return
+	}
+	for i := range lines {
+		var sb strings.Builder
+		out := ""
+		if err := devLitWrite(&sb, i+1); err != nil {
+			out = "ERR"
+		} else {
+			out = hx(sb.String())
+		}
+		fmt.Fprintf(e.w, "devlit:%d\t%s\n", i, out)
+	}
 }
 
 func isPrintList(s string) string {
@@ -108,6 +130,9 @@ func runC16(e *emitter, tier string, seed uint64) {
 		}
 		q := strconv.Quote(s)
 		body := q[1 : len(q)-1]
+		if len(c16DevLits) < 6000 {
+			c16DevLits = append(c16DevLits, body)
+		}
 		un, err := strconv.Unquote(`"` + body + `"`)
 		unS := hx(un)
 		if err != nil {
@@ -144,6 +169,9 @@ func runC16(e *emitter, tier string, seed uint64) {
 			return
 		}
 		joined := strings.Join(op.Literals, "\n")
+		if len(c16DevLits) < 12000 && !strings.Contains(joined, "\r") {
+			c16DevLits = append(c16DevLits, op.Literals...)
+		}
 		lines := strings.Split(joined, "\n")
 		var un []string
 		for _, l := range lines {
@@ -195,11 +223,14 @@ func runC16(e *emitter, tier string, seed uint64) {
 		}
 	}
 	build(nil, 1)
+	build(nil, nslots)
 	if tier == "thorough" {
-		build(nil, nslots)
-	} else {
-		for i := 0; i < 250; i++ {
-			all = append(all, r.pick(c16Forms)+"\n\t"+r.pick(c16Forms))
+		// three slots: every rotation and swap of a random triple (moves static text across blocks and calls)
+		for i := 0; i < 600; i++ {
+			f, g, h := r.pick(c16Forms), r.pick(c16Forms), r.pick(c16Forms)
+			for _, o := range [][]string{{f, g, h}, {g, f, h}, {f, h, g}, {h, g, f}, {g, h, f}, {h, f, g}} {
+				all = append(all, strings.Join(o, "\n\t"))
+			}
 		}
 	}
 	for _, body := range all {
@@ -219,8 +250,8 @@ func runC16(e *emitter, tier string, seed uint64) {
 	pairs := 0
 	for _, k := range keys {
 		g := groups[k]
-		for i := 0; i < len(g) && i < 12; i++ {
-			for j := 0; j < len(g) && j < 12; j++ {
+		for i := 0; i < len(g) && i < 16; i++ {
+			for j := 0; j < len(g) && j < 16; j++ {
 				if i == j {
 					continue
 				}
@@ -246,26 +277,40 @@ func runC16(e *emitter, tier string, seed uint64) {
 
 // c16DevMode writes the development text files with the REAL FSEventHandler (devMode on), renders the fixtures here
 // (normal mode) and in a child process started with TEMPL_DEV_MODE=true, and emits both outputs.
+// c16WriteDevFiles writes the development text files of the fixture templates with the REAL FSEventHandler (devMode on)
+// into $TEMPL_DEV_MODE_ROOT.
+func c16WriteDevFiles(root string) error {
+	tdir := filepath.Join(root, "harness", "tmpl")
+	h := generatecmd.NewFSEventHandler(quietLog, tdir, true, nil, false, true, func(string, []byte) error { return nil }, false)
+	files, _ := filepath.Glob(filepath.Join(tdir, "*.templ"))
+	for _, f := range files {
+		if _, err := h.HandleEvent(context.Background(), fsEvent(f)); err != nil {
+			return fmt.Errorf("%s: %w", filepath.Base(f), err)
+		}
+	}
+	return nil
+}
+
+// c16DevLits are the literal lines read back through development-mode runtime.WriteString (filled by runC16 from the
+// real generator's literals and from strconv.Quote of the enumerated strings).
+var c16DevLits []string
+
 func c16DevMode(e *emitter) {
 	root := os.Getenv("VERIF_ROOT")
 	if root == "" {
 		root = "/verif"
 	}
-	tdir := filepath.Join(root, "harness", "tmpl")
 	devRoot := filepath.Join(workDir, "devtxt")
 	if workDir == "" {
 		devRoot = filepath.Join(root, ".work", "devtxt")
 	}
 	os.MkdirAll(devRoot, 0o755)
 	os.Setenv("TEMPL_DEV_MODE_ROOT", devRoot)
-	h := generatecmd.NewFSEventHandler(quietLog, tdir, true, nil, false, true, func(string, []byte) error { return nil }, false)
-	files, _ := filepath.Glob(filepath.Join(tdir, "*.templ"))
-	for _, f := range files {
-		if _, err := h.HandleEvent(context.Background(), fsEvent(f)); err != nil {
-			e.emit("dev gen "+f, "dev", "generate:"+filepath.Base(f), hx("ok"), hx("ERR:"+err.Error()))
-			return
-		}
+	if err := c16WriteDevFiles(root); err != nil {
+		e.emit("dev gen", "dev", "generate", hx("ok"), hx("ERR:"+err.Error()))
+		return
 	}
+	os.WriteFile(filepath.Join(devRoot, "devlit.input"), []byte(strings.Join(c16DevLits, "\n")), 0o644)
 	self, _ := os.Executable()
 	cmd := exec.Command(self, "devrender")
 	cmd.Env = append(os.Environ(), "TEMPL_DEV_MODE=true", "TEMPL_DEV_MODE_ROOT="+devRoot)
@@ -288,5 +333,12 @@ func c16DevMode(e *emitter) {
 			d = hx(fmt.Sprintf("ERR:child produced nothing (%v)", err))
 		}
 		e.emit("dev "+f.name, "dev", f.name, hx(normal), d)
+	}
+	for i, l := range c16DevLits {
+		d, ok := devOut[fmt.Sprintf("devlit:%d", i)]
+		if !ok {
+			d = "MISSING"
+		}
+		e.emit("devlit "+l, "devlit", hx(l), d)
 	}
 }
